@@ -3,6 +3,7 @@
 // stdin: one ordering per line: "<type> <op> <op> ..."; stdout: "BEGIN <line>" then one JSON result line each.
 #include "QXmppPromise.h"
 #include "QXmppTask.h"
+#include "QXmppFutureUtils_p.h"
 
 #include <QObject>
 #include <cstdio>
@@ -105,6 +106,8 @@ struct World {
     Result r;
     // second pair for nested use
     QXmppPromise<T> *p2 = nullptr;
+    // result tasks of continuations attached through QXmpp::Private::chain()
+    std::vector<QXmppTask<int> *> chained;
 
     void dropP(size_t j) { delete ps.at(j); ps[j] = nullptr; }
     void dropT(size_t i) { delete ts.at(i); ts[i] = nullptr; }
@@ -155,6 +158,23 @@ struct World {
                 t->then(ctx, [this, self, k = Tok()](T &&v) { ++r.count; r.ctxAliveAtCall = ctxAlive; r.tagSeen = v.tag; r.movedFromSeen = v.movedFrom; T sink(std::move(v)); });
             }
             return;
+        }
+        if (R == 'C') {
+            // attached through the library's own chain() helper (every manager request is built on it): the converter is the continuation,
+            // the chained result task is kept by the caller and has a continuation of its own
+            if constexpr (!std::is_void_v<T>) {
+                auto t2 = QXmpp::Private::chain<int>(QXmppTask<T>(*t), ctx, [this, k = Tok()](T &&v) -> int {
+                    ++r.count;
+                    r.ctxAliveAtCall = ctxAlive;
+                    r.tagSeen = v.tag;
+                    r.movedFromSeen = v.movedFrom;
+                    T sink(std::move(v));
+                    return 5;
+                });
+                chained.push_back(new QXmppTask<int>(std::move(t2)));
+                chained.back()->then(ctx, [this, k2 = Tok()](int &&) { ++r.innerCount; });
+                return;
+            }
         }
         if (R == 'N') {
             // the continuation attaches a second continuation to the same (copied) task: memory safety only
@@ -226,6 +246,8 @@ struct World {
     {
         for (size_t j = 0; j < ps.size(); j++) if (ps[j]) dropP(j);
         for (size_t i = 0; i < ts.size(); i++) if (ts[i]) dropT(i);
+        for (auto *c : chained) delete c;
+        chained.clear();
         killCtx();
         killCtxB();
     }
